@@ -84,3 +84,13 @@ PROPS['C20'] = dict(
     assumptions=[],
     explanation="",
 )
+
+from contracts import srcsec
+PROPS['C03'] = dict(
+    units=list(srcsec.UNITS),
+    level='proof',
+    min_obligations=100,
+    budget_s=150,
+    assumptions=[],
+    explanation="",
+)
